@@ -33,7 +33,7 @@ F = ["mpi_no_thread_tag_register", "parsec_ce_rebuild_am_requests", "mpi_funnell
 def q(name, ntag, tested, posted, dyn, dynrecv, nstep, nops, tiers=("quick", "thorough"), timeout=2400, slow=True):
     ntot = ntag * tested + dyn
     us = ["parsec_lifo_push.1:2", "mpi_no_thread_progress.0:%d" % (ntot + 1), "mpi_no_thread_progress.1:%d" % (ntot + 1),
-          "mpi_no_thread_progress.2:%d" % (dyn + 2), "mpi_no_thread_progress.3:4",
+          "mpi_no_thread_progress.2:%d" % (dyn + 2), "mpi_no_thread_progress.3:%d" % (2 * max(nstep, 1) + 2),
           "mpi_funnelled_refill_am_requests.0:%d" % (tested + 1), "mpi_funnelled_refill_am_requests.1:%d" % (posted + 1),
           "mpi_funnelled_refill_am_requests.2:%d" % (tested + 1), "parsec_ce_rebuild_am_requests.0:%d" % (ntot + 1),
           "parsec_ce_rebuild_am_requests.1:%d" % (tested + 1), "parsec_ce_rebuild_am_requests.2:%d" % (posted + 1),
